@@ -12,9 +12,9 @@
 
   Uniqueness is a condition on DOCUMENTS: `wouldCollide defs docs d` — some unique index definition
   under which `d` falls (partial filter) has a stored document falling under it that shares a key
-  tuple with `d`. `admit` is the same condition evaluated definition by definition, so that the
+  tuple with `d`. `admits` is the same condition evaluated definition by definition, so that the
   error CLASS (a partial filter that cannot be evaluated → its error; a collision → `dup`) is the
-  one the implementation reports (`admit_eq_wouldCollide` in Props/C01.lean relates the two).
+  one the implementation reports (`admits_eq_wouldCollide` in Props/C01.lean relates the two).
 
   The system namespace `local.oplog` is listed (it shows up in listCollections/listDatabases) but its
   contents are not part of this model; the only thing the API can observe about it outside a direct
@@ -123,19 +123,19 @@ def wouldCollide (sch : SchemaEval) (defs : List (String × IndexConfig)) (docs 
 
 /-- `d` may be added to `docs`: definition by definition, the partial filter must be evaluable and
     a unique definition must not clash -/
-def admit (sch : SchemaEval) (docs : List Doc) (d : Doc) : List (String × IndexConfig) → Res Unit
+def admits (sch : SchemaEval) (docs : List Doc) (d : Doc) : List (String × IndexConfig) → Res Unit
   | [] => .ok ()
   | (_, cfg) :: r =>
     match under sch cfg d with
     | .error e => .error e
-    | .ok false => admit sch docs d r
-    | .ok true => if cfg.unique && clashes sch cfg docs d then .error .dup else admit sch docs d r
+    | .ok false => admits sch docs d r
+    | .ok true => if cfg.unique && clashes sch cfg docs d then .error .dup else admits sch docs d r
 
 /-- the documents `news` may be added one after the other -/
 def admitAll (sch : SchemaEval) (defs : List (String × IndexConfig)) : List Doc → List Doc → Res Unit
   | _, [] => .ok ()
   | base, d :: r =>
-    match admit sch base d defs with
+    match admits sch base d defs with
     | .error e => .error e
     | .ok _ => admitAll sch defs (base ++ [d]) r
 
@@ -156,7 +156,7 @@ def SColl.insert (sch : SchemaEval) (c : SColl) (d : Doc) (oids : List V) : Res 
   match genId d oids with
   | .error e => .error e
   | .ok (d, oids) =>
-    match admit sch c.docs d c.defs with
+    match admits sch c.docs d c.defs with
     | .error e => .error e
     | .ok _ => .ok ({ c with docs := c.docs ++ [d] }, d, oids)
 
@@ -191,7 +191,7 @@ def SColl.replace (sch : SchemaEval) (c : SColl) (q repl : Doc) (sort : Option D
     match replacementFor old repl with
     | .error e => .error e
     | .ok nw =>
-      match admit sch (c.remove [old]).docs nw c.defs with
+      match admits sch (c.remove [old]).docs nw c.defs with
       | .error e => .error e
       | .ok _ => .ok ({ c with docs := swapDoc c.docs old nw }, [old], if sameDoc old nw then [] else [nw])
 
